@@ -514,6 +514,8 @@ class Unit:
             text = R.r10_byte_strings(text, log)
         if 'R14' in rules:
             text = R.r14_split_or_guard(text, log)
+        if 'R15' in rules:
+            text = R.r15_iter_wrappers(text, log)
         if 'R1' in rules:
             text = R.r1_erase_guards(text, log, 'selfmut' in flags)
             text = R.r1_erase_ctor(text, log)
